@@ -307,3 +307,210 @@ Section Ro.
       split; [reflexivity|]. split; [reflexivity|]. split; [lia|]. reflexivity.
   Qed.
 End Ro.
+
+(* ------------------------------------------------------------------ observe file *)
+Definition ps_rekey (k : bytes) (r : ps_obs) : ps_obs :=
+  mkObs k (ob_proto r) (ob_listen r) (ob_tuple r) (ob_pkt r) (ob_osc r).
+
+Section ObsLoad.
+  Variable pol : Z -> Z -> Z.
+  Variable S : Type.
+  Variables la lt : Z.
+  Hypothesis la_pos : 0 < la.
+  Hypothesis lt_pos : 0 < lt.
+  Variable step : ps_obs -> S -> ps_prog (S * option bytes).
+  (* what one call of the caller's step (coap_persist_observe_add_lkd) does: to the caller's
+     state, the key of the subscription it made, and to the counter file *)
+  Variable spec : ps_obs -> S -> list (bytes * Z) -> S * option bytes * list (bytes * Z).
+  Variable okS : S -> Prop.
+  Variable cmax : nat.
+
+  Definition ps_step_ok : Prop :=
+    forall r st C s,
+      okS st -> ps_wfh s -> Forall ps_cnt_wf C -> (length C < cmax)%nat ->
+      ps_holds ps_cnt_file (ps_view s PS_CNT) C ->
+      exists s',
+        ps_run pol (step r st) s = ((fst (fst (spec r st C)), snd (fst (spec r st C))), s') /\
+        okS (fst (fst (spec r st C))) /\
+        Forall ps_cnt_wf (snd (spec r st C)) /\
+        (length (snd (spec r st C)) <= Datatypes.S (length C))%nat /\
+        ps_holds ps_cnt_file (ps_view s' PS_CNT) (snd (spec r st C)) /\
+        (forall k, snd (fst (spec r st C)) = Some k -> len k = PS_KEY) /\
+        ps_wfh s' /\ ps_next s <= ps_next s' /\
+        (forall g, g < ps_next s -> ps_hget g (ps_hs s') = ps_hget g (ps_hs s)) /\
+        (forall n, n <> PsBase PS_CNT -> n <> PsTmp PS_CNT -> ps_get n (ps_fs s') = ps_get n (ps_fs s)).
+
+  Fixpoint ps_obs_fold (l : list ps_obs) (st : S) (C : list (bytes * Z))
+    : S * list ps_obs * list (bytes * Z) :=
+    match l with
+    | [] => (st, [], C)
+    | r :: tl =>
+        let x := spec r st C in
+        let y := ps_obs_fold tl (fst (fst x)) (snd x) in
+        (fst (fst y),
+         match snd (fst x) with Some k => ps_rekey k r :: snd (fst y) | None => snd (fst y) end,
+         snd y)
+    end.
+
+  Lemma ps_txw_reframe : forall s s' hn tmp W V,
+    ps_txw s hn tmp W V -> ps_hget hn (ps_hs s') = ps_hget hn (ps_hs s) ->
+    ps_get tmp (ps_fs s') = ps_get tmp (ps_fs s) -> ps_txw s' hn tmp W (ps_view s').
+  Proof.
+    intros s s' hn tmp W V [(md & dd & q & pend & disk & Hw & Hh & Hd & HW) [Ht _]] E Ef.
+    split; [|split; [exact Ht|reflexivity]].
+    exists md, dd, q, pend, disk. repeat split; try assumption; congruence.
+  Qed.
+
+  Lemma ps_rekey_wf : forall k r, ps_obs_wf la lt r -> len k = PS_KEY -> ps_obs_wf la lt (ps_rekey k r).
+  Proof.
+    intros k r (H1 & H2 & H3 & H4 & H5 & H6) Hk. unfold ps_obs_wf, ps_rekey.
+    cbn [ob_key ob_proto ob_listen ob_tuple ob_pkt ob_osc]. tauto.
+  Qed.
+
+  Hypothesis step_ok : ps_step_ok.
+
+  Lemma ps_obs_load_loop_run : forall F ho hn rest fuel s pos W C st,
+    (length rest < fuel)%nat -> Forall (ps_obs_wf la lt) rest ->
+    ho <> hn -> ho < ps_next s -> hn < ps_next s -> ps_wfh s ->
+    ps_txr s ho F pos -> drop pos F = ps_obs_file rest ->
+    ps_txw s hn (PsTmp PS_OBS) W (ps_view s) ->
+    okS st -> Forall ps_cnt_wf C -> (length C + length rest < cmax)%nat ->
+    ps_holds ps_cnt_file (ps_view s PS_CNT) C ->
+    exists s' pos',
+      ps_run pol (ps_obs_load_loop la lt fuel ho hn step st) s =
+        (Some (fst (fst (ps_obs_fold rest st C)), true), s') /\
+      ps_txr s' ho F pos' /\
+      ps_txw s' hn (PsTmp PS_OBS) (W ++ ps_obs_file (snd (fst (ps_obs_fold rest st C)))) (ps_view s') /\
+      ps_holds ps_cnt_file (ps_view s' PS_CNT) (snd (ps_obs_fold rest st C)) /\
+      Forall ps_cnt_wf (snd (ps_obs_fold rest st C)) /\
+      okS (fst (fst (ps_obs_fold rest st C))) /\
+      ps_wfh s' /\ ps_next s <= ps_next s' /\
+      (forall i, i <> PS_CNT -> ps_view s' i = ps_view s i).
+  Proof.
+    intros F ho hn rest. induction rest as [|r rest IH];
+      intros fuel s pos W C st Hf Hwf Hne Hho Hhn Hwfh Hr Hd Hw Hok HC Hlen Hcnt.
+    - destruct fuel; [lia|]. cbn [ps_obs_load_loop ps_obs_fold fst snd ps_obs_file].
+      rewrite ps_run_bind.
+      destruct (ps_rw_run pol ho hn _ _ (ps_obs_read_rw la lt ho hn) s F pos (PsTmp PS_OBS) W
+                          (ps_view s) Hne Hr Hw) as (s1 & pos1 & Hrun & Hr1 & _ & Hw1 & Hfr).
+      cbn [ps_obs_file] in Hd. rewrite Hd, ps_pure_obs_read_eof in Hrun, Hw1.
+      cbn [fst snd] in Hrun, Hw1. rewrite Hrun. cbn [ps_run].
+      exists s1, pos1. rewrite app_nil_r in *.
+      assert (HV : forall i, ps_view s1 i = ps_view s i) by (apply Hw1).
+      split; [reflexivity|]. split; [exact Hr1|].
+      split; [eapply ps_txw_reframe; [exact Hw1|reflexivity|reflexivity]|].
+      split; [rewrite HV; exact Hcnt|]. split; [exact HC|]. split; [exact Hok|].
+      split; [pose proof (ps_wfh_run pol _ (ps_obs_read la lt ho) s Hwfh) as X; rewrite Hrun in X; exact X|].
+      split; [destruct Hfr as [E _]; lia|]. intros i _. apply HV.
+    - destruct fuel; [cbn in Hf; lia|]. inversion Hwf as [|? ? Hr0 Hrest]; subst.
+      cbn [ps_obs_load_loop]. rewrite ps_run_bind.
+      destruct (ps_rw_run pol ho hn _ _ (ps_obs_read_rw la lt ho hn) s F pos (PsTmp PS_OBS) W
+                          (ps_view s) Hne Hr Hw) as (s1 & pos1 & Hrun & Hr1 & Hd1 & Hw1 & Hfr1).
+      cbn [ps_obs_file] in Hd. rewrite Hd, ps_pure_obs_read in Hrun, Hd1, Hw1 by assumption.
+      cbn [fst snd] in Hrun, Hd1, Hw1. rewrite Hrun. rewrite app_nil_r in Hw1.
+      assert (HV1 : forall i, ps_view s1 i = ps_view s i) by (apply Hw1).
+      assert (Hwfh1 : ps_wfh s1).
+      { pose proof (ps_wfh_run pol _ (ps_obs_read la lt ho) s Hwfh) as X. rewrite Hrun in X. exact X. }
+      assert (Hn1 : ps_next s1 = ps_next s) by (apply Hfr1).
+      (* the caller's step *)
+      rewrite ps_run_bind.
+      assert (Hcnt1 : ps_holds ps_cnt_file (ps_view s1 PS_CNT) C) by (rewrite HV1; exact Hcnt).
+      destruct (step_ok r st C s1 Hok Hwfh1 HC ltac:(cbn in Hlen; lia) Hcnt1)
+        as (s2 & Hrun2 & Hok2 & HC2 & Hlen2 & Hcnt2 & Hkey & Hwfh2 & Hn2 & Hg2 & Hfs2).
+      rewrite Hrun2. cbn [fst snd].
+      set (x := spec r st C) in *.
+      assert (Hr2 : ps_txr s2 ho F pos1).
+      { eapply ps_txr_frame; [exact Hr1|]. apply Hg2. lia. }
+      assert (Hw2 : ps_txw s2 hn (PsTmp PS_OBS) W (ps_view s2)).
+      { eapply ps_txw_reframe; [exact Hw1|apply Hg2; lia|apply Hfs2; discriminate]. }
+      assert (HV2 : forall i, i <> PS_CNT -> ps_view s2 i = ps_view s i).
+      { intros i Hi. rewrite <- HV1. unfold ps_view. apply Hfs2; [intro E; inversion E; contradiction|discriminate]. }
+      cbn [ps_obs_fold]. fold x.
+      destruct (snd (fst x)) as [k|] eqn:Ek.
+      + (* written under the new key *)
+        rewrite ps_run_bind.
+        assert (Hrk : ps_obs_wf la lt (ps_rekey k r)) by (apply ps_rekey_wf; [exact Hr0|apply Hkey; reflexivity]).
+        destruct (ps_rw_run pol ho hn _ _ (ps_obs_write_rw ho hn (ps_rekey k r)) s2 F pos1
+                            (PsTmp PS_OBS) W (ps_view s2) Hne Hr2 Hw2)
+          as (s3 & pos3 & Hrun3 & Hr3 & Hd3 & Hw3 & Hfr3).
+        rewrite (ps_pure_obs_write la lt) in Hrun3, Hd3, Hw3 by assumption.
+        cbn [fst snd] in Hrun3, Hd3, Hw3.
+        change (mkObs k (ob_proto r) (ob_listen r) (ob_tuple r) (ob_pkt r) (ob_osc r))
+          with (ps_rekey k r). rewrite Hrun3.
+        assert (HV3 : forall i, ps_view s3 i = ps_view s2 i) by (apply Hw3).
+        assert (Hwfh3 : ps_wfh s3).
+        { pose proof (ps_wfh_run pol _ (ps_obs_write hn (ps_rekey k r)) s2 Hwfh2) as X.
+          rewrite Hrun3 in X. exact X. }
+        assert (Hn3 : ps_next s3 = ps_next s2) by (apply Hfr3).
+        destruct (IH fuel s3 pos3 (W ++ ps_obs_enc (ps_rekey k r)) (snd x) (fst (fst x)))
+          as (s4 & pos4 & Hrun4 & Hr4 & Hw4 & Hcnt4 & HC4 & Hok4 & Hwfh4 & Hn4 & HV4);
+          try assumption; try lia.
+        * cbn in Hf. lia.
+        * rewrite Hd3, Hd1. reflexivity.
+        * eapply ps_txw_reframe; [exact Hw3|reflexivity|reflexivity].
+        * cbn in Hlen. lia.
+        * rewrite HV3. exact Hcnt2.
+        * exists s4, pos4. rewrite Hrun4. cbn [fst snd ps_obs_file].
+          split; [reflexivity|]. split; [exact Hr4|].
+          split; [rewrite <- app_assoc in Hw4; exact Hw4|].
+          split; [exact Hcnt4|]. split; [exact HC4|]. split; [exact Hok4|].
+          split; [exact Hwfh4|]. split; [lia|].
+          intros i Hi. rewrite HV4, HV3 by exact Hi. apply HV2. exact Hi.
+      + (* not re-created: not written *)
+        destruct (IH fuel s2 pos1 W (snd x) (fst (fst x)))
+          as (s4 & pos4 & Hrun4 & Hr4 & Hw4 & Hcnt4 & HC4 & Hok4 & Hwfh4 & Hn4 & HV4);
+          try assumption; try lia.
+        * cbn in Hf. lia.
+        * cbn in Hlen. lia.
+        * exists s4, pos4. rewrite Hrun4. cbn [fst snd].
+          split; [reflexivity|]. split; [exact Hr4|]. split; [exact Hw4|].
+          split; [exact Hcnt4|]. split; [exact HC4|]. split; [exact Hok4|].
+          split; [exact Hwfh4|]. split; [lia|].
+          intros i Hi. rewrite HV4 by exact Hi. apply HV2. exact Hi.
+  Qed.
+
+  (* coap_op_observe_load_disk: every record of the file is handed to the caller's step, in file
+     order; the file is rewritten with exactly the records for which the step returned a key,
+     under that key; the counter file ends up as the steps left it; the third file is untouched *)
+  Theorem ps_obs_load_correct : forall fuel l C st s,
+    (length l < fuel)%nat -> Forall (ps_obs_wf la lt) l -> ps_wfh s ->
+    ps_view s PS_OBS = Some (ps_obs_file l) ->
+    okS st -> Forall ps_cnt_wf C -> (length C + length l < cmax)%nat ->
+    ps_holds ps_cnt_file (ps_view s PS_CNT) C ->
+    exists s',
+      ps_run pol (ps_obs_load la lt fuel step st) s = (Some (fst (fst (ps_obs_fold l st C))), s') /\
+      ps_view s' PS_OBS = Some (ps_obs_file (snd (fst (ps_obs_fold l st C)))) /\
+      ps_holds ps_cnt_file (ps_view s' PS_CNT) (snd (ps_obs_fold l st C)) /\
+      ps_view s' PS_DYN = ps_view s PS_DYN /\
+      okS (fst (fst (ps_obs_fold l st C))).
+  Proof.
+    intros fuel l C st s Hf Hwf Hwfh Hv Hok HC Hlen Hcnt.
+    unfold ps_obs_load, ps_open. cbn [ps_run].
+    destruct (ps_open_r_some pol s (PsBase PS_OBS) _ Hv) as (s1 & E1 & Hr1 & Hf1 & Hn1 & Hg1).
+    rewrite E1. cbn [ps_run].
+    destruct (ps_open_w pol s1 PS_OBS) as (s2 & E2 & Hw2 & Hn2 & Hg2 & Hfs2).
+    rewrite E2. set (ho := ps_next s) in *. set (hn := ps_next s1) in *.
+    assert (Hne : ho <> hn) by (subst ho hn; lia).
+    assert (Hr2 : ps_txr s2 ho (ps_obs_file l) 0) by (eapply ps_txr_frame; [exact Hr1|apply Hg2; exact Hne]).
+    assert (HV1 : forall i, ps_view s1 i = ps_view s i) by (apply ps_view_files; exact Hf1).
+    assert (HV2 : forall i, ps_view s2 i = ps_view s i) by (intro i; rewrite <- HV1; apply Hw2).
+    assert (Hwfh2 : ps_wfh s2).
+    { pose proof (ps_wfh_step pol (PoOpen (PsBase PS_OBS) PsR) s Hwfh) as X1. rewrite E1 in X1.
+      pose proof (ps_wfh_step pol (PoOpen (PsTmp PS_OBS) PsWp) s1 X1) as X2. rewrite E2 in X2. exact X2. }
+    rewrite ps_run_bind.
+    destruct (ps_obs_load_loop_run (ps_obs_file l) ho hn l fuel s2 0 [] C st)
+      as (s3 & pos3 & Hrun3 & Hr3 & Hw3 & Hcnt3 & HC3 & Hok3 & Hwfh3 & Hn3 & HV3);
+      try assumption; try (subst ho hn; lia).
+    - apply ps_drop_0.
+    - eapply ps_txw_reframe; [exact Hw2|reflexivity|reflexivity].
+    - rewrite HV2. exact Hcnt.
+    - rewrite Hrun3. cbn [app] in Hw3.
+      rewrite ps_run_bind.
+      destruct (ps_commit_run pol s3 hn PS_OBS _ (ps_view s3) (Some ho) Hw3) as (s4 & Hrun4 & Hv4 & Ho4).
+      { split; [exact Hne|]. exists (ps_obs_file l), pos3. exact Hr3. }
+      rewrite Hrun4. cbn [ps_run]. exists s4. split; [reflexivity|]. split; [exact Hv4|].
+      split; [rewrite Ho4 by discriminate; exact Hcnt3|].
+      split; [|exact Hok3].
+      rewrite Ho4 by discriminate. rewrite HV3 by discriminate. apply HV2.
+  Qed.
+End ObsLoad.
